@@ -35,6 +35,7 @@ unit!(folder_prefix, "/verif/units/folder_prefix/harness.rs", {
         db.get_iso_literal(key).is_none()
     }
 });
+unit!(small_bytes, "/verif/units/small_bytes/harness.rs", { pub use intern::verif_hooks::SmallBytes; });
 unit!(alias_chunk, "/verif/units/alias_chunk/harness.rs", {
     /// real code: the response-key chunk of a one-character string argument, minus "s_"
     pub fn api_alias_char(c: char) -> char {
@@ -68,6 +69,7 @@ fn main() {
         "arena" => arena::harness::dispatch(&name, &mut src),
         "overload_order" => overload_order::harness::dispatch(&name, &mut src),
         "folder_prefix" => folder_prefix::harness::dispatch(&name, &mut src),
+        "small_bytes" => small_bytes::harness::dispatch(&name, &mut src),
         "alias_chunk" => alias_chunk::harness::dispatch(&name, &mut src),
         "lsp_positions" => lsp_positions::harness::dispatch(&name, &mut src),
         _ => false,
